@@ -26,8 +26,19 @@ func (r *Rng) Intn(n int) int {
 }
 func (r *Rng) Range(lo, hi int) int { return lo + r.Intn(hi-lo+1) }
 func (r *Rng) Bool() bool           { return r.U64()&1 == 1 }
-func (r *Rng) Pick(xs []int) int    { return xs[r.Intn(len(xs))] }
-func (r *Rng) Fork() *Rng           { return NewRng(r.U64()) }
+func (r *Rng) Perm(n int) []int {
+	p := make([]int, n)
+	for i := range p {
+		p[i] = i
+	}
+	for i := n - 1; i > 0; i-- {
+		j := r.Intn(i + 1)
+		p[i], p[j] = p[j], p[i]
+	}
+	return p
+}
+func (r *Rng) Pick(xs []int) int { return xs[r.Intn(len(xs))] }
+func (r *Rng) Fork() *Rng        { return NewRng(r.U64()) }
 func (r *Rng) Bytes(n int) []byte {
 	b := make([]byte, n)
 	for i := 0; i < n; i += 8 {
@@ -41,7 +52,7 @@ func (r *Rng) Bytes(n int) []byte {
 
 // ---------------------------------------------------------------- payloads
 
-var payloadFamilies = []string{"empty", "one", "text", "alpha", "random", "nearuniform", "fib", "run", "periodic", "wedge", "alias", "mixed", "dominant", "gaps", "tokedge"}
+var payloadFamilies = []string{"empty", "one", "text", "alpha", "random", "nearuniform", "fib", "run", "periodic", "wedge", "alias", "mixed", "dominant", "gaps", "tokedge", "steeptail"}
 
 var words = []string{"the", "quick", "brown", "fox", "jumps", "over", "lazy", "dog", "opticks", "light", "ray", "prism", "colour", "refraction", "and", "of", "in", "to", "is", "that", "by", "which", "experiment", "\n", ", ", ". "}
 
@@ -94,6 +105,39 @@ func Payload(r *Rng, fam string, n int) []byte {
 		for i := len(b) - 1; i > 0; i-- {
 			j := r.Intn(i + 1)
 			b[i], b[j] = b[j], b[i]
+		}
+		return b
+	case "steeptail":
+		// doubling counts for a few symbols and many symbols that occur exactly once, the rare ones ADJACENT at the
+		// very end of the data: deepest (14/15-bit) codes next to each other in the scalar tail of the block
+		// encoders (several maximal codes inside one 64-bit store).
+		if n < 200 {
+			n = 200
+		}
+		perm := r.Perm(256)
+		nr := 20 + r.Intn(60) // rare symbols
+		body := n - nr
+		b := make([]byte, 0, n)
+		cnt, sym := 64, nr
+		if body < 4000 {
+			cnt = 2
+		}
+		for len(b) < body && sym < 250 {
+			for i := 0; i < cnt && len(b) < body; i++ {
+				b = append(b, byte(perm[sym]))
+			}
+			cnt *= 2
+			sym++
+		}
+		for len(b) < body {
+			b = append(b, byte(perm[sym%256]))
+		}
+		for i := len(b) - 1; i > 0; i-- {
+			j := r.Intn(i + 1)
+			b[i], b[j] = b[j], b[i]
+		}
+		for i := 0; i < nr; i++ {
+			b = append(b, byte(perm[i]))
 		}
 		return b
 	case "run":
